@@ -180,6 +180,9 @@ func (e *Env) resolve(name string) (binding, bool) {
 					if !ok || id.Name != name {
 						continue
 					}
+					if _, isGlobal := x.X.(*ssa.Global); isGlobal {
+						continue
+					}
 					if x.IsAddr {
 						p := fc.val(x.X)
 						pt, ok := x.X.Type().Underlying().(*types.Pointer)
@@ -369,6 +372,15 @@ func (e *Env) eval(ex ast.Expr) sval {
 			return sval{v: Leaf(TFalse), t: types.Typ[types.Bool]}
 		case "nil":
 			return sval{v: Value{K: KOpaque}, t: types.Typ[types.UntypedNil]}
+		}
+		if e.pkg != nil {
+			if pd, ok := fc.eng.contracts.Preds[contractKey(e.pkg.Path(), x.Name)]; ok {
+				pe, perr := parser.ParseExpr(pd.Body)
+				if perr != nil {
+					specPanic("pred %s: %v", x.Name, perr)
+				}
+				return e.eval(pe)
+			}
 		}
 		b, ok := e.resolve(x.Name)
 		if !ok {
@@ -864,6 +876,36 @@ func (e *Env) evalCall(x *ast.CallExpr) sval {
 				return sval{v: Leaf(Term{fmt.Sprintf("(forall ((%s Int)) %s)", qv.S, Implies(rng, body.v.T).S), SBool}), t: boolT}
 			}
 			return sval{v: Leaf(Term{fmt.Sprintf("(exists ((%s Int)) %s)", qv.S, And(rng, body.v.T).S), SBool}), t: boolT}
+		case "forallv", "existsv":
+			// forallv(x, Type, body): quantify over every value of a scalar type
+			if len(x.Args) != 3 {
+				specPanic("%s(x, Type, body)", id.Name)
+			}
+			vid, ok := x.Args[0].(*ast.Ident)
+			if !ok {
+				specPanic("quantifier variable must be an identifier")
+			}
+			qt, ok := e.lookupType(x.Args[1])
+			if !ok {
+				specPanic("unknown type in %s", id.Name)
+			}
+			sh := shapeOf(qt, fc.mode)
+			if sh.K != KLeaf {
+				specPanic("%s over non-scalar type", id.Name)
+			}
+			*e.qn++
+			qv := Term{fmt.Sprintf("%s!q%d", vid.Name, *e.qn), sh.Sort}
+			n := e.sub()
+			n.binds[vid.Name] = binding{Leaf(qv), qt}
+			body := n.eval(x.Args[2])
+			if body.v.K != KLeaf || body.v.T.Sort != SBool {
+				specPanic("quantifier body not boolean")
+			}
+			rng := And(fc.typeFacts(qt, Leaf(qv), e.st.next)...)
+			if id.Name == "forallv" {
+				return sval{v: Leaf(Term{fmt.Sprintf("(forall ((%s %s)) %s)", qv.S, sh.Sort, Implies(rng, body.v.T).S), SBool}), t: boolT}
+			}
+			return sval{v: Leaf(Term{fmt.Sprintf("(exists ((%s %s)) %s)", qv.S, sh.Sort, And(rng, body.v.T).S), SBool}), t: boolT}
 		case "implies":
 			a, b := e.eval(x.Args[0]), e.eval(x.Args[1])
 			return sval{v: Leaf(Implies(a.v.T, b.v.T)), t: boolT}
